@@ -158,10 +158,17 @@ def _truth_atoms(t, val, bb=0):
 def filtered_element_conds(c0):
     """c0 is the element a `for` loop (or next()) takes from an iterator built with .filter(pred): every element that gets through satisfies
     pred.  Returns one list of conditions (on c0) per way pred can return true, or None when c0 is no such element."""
-    if _CTX is None or not (isinstance(c0, tuple) and len(c0) > 2 and c0[0] == "field" and c0[2] == 0 and isinstance(c0[1], tuple) and c0[1][0] == "downcast" and c0[1][2] == "Some"
-                            and is_call(strip_refs(c0[1][1]), "Iterator>::next") and call_args(strip_refs(c0[1][1]))):
+    # the second half of an enumerate() item is the element of the enumerated iterator
+    item = c0
+    via_enum = False
+    if isinstance(c0, tuple) and len(c0) > 2 and c0[0] == "field" and c0[2] == 1 and isinstance(c0[1], tuple) and len(c0[1]) > 2 and c0[1][0] == "field" and c0[1][2] == 0 \
+            and isinstance(c0[1][1], tuple) and c0[1][1][0] == "downcast" and is_call(strip_refs(c0[1][1][1]), "Enumerate<I> as std::iter::Iterator>::next"):
+        item = c0[1]
+        via_enum = True
+    if _CTX is None or not (isinstance(item, tuple) and len(item) > 2 and item[0] == "field" and item[2] == 0 and isinstance(item[1], tuple) and item[1][0] == "downcast" and item[1][2] == "Some"
+                            and is_call(strip_refs(item[1][1]), "Iterator>::next") and call_args(strip_refs(item[1][1]))):
         return None
-    it = call_args(strip_refs(c0[1][1]))[0]
+    it = call_args(strip_refs(item[1][1]))[0]
     alts = None
     for _ in range(10):
         while isinstance(it, tuple) and it and it[0] in ("ref", "refmut"):
@@ -171,6 +178,8 @@ def filtered_element_conds(c0):
         elif isinstance(it, tuple) and it and it[0] == "havoc" and len(it) > 3:
             it = it[3]          # a loop-carried iterator: what it was built from (consuming elements does not change what later ones satisfy)
         elif is_call(it, "IntoIterator>::into_iter", "Iterator::by_ref", "Iterator::rev", "Iterator::skip", "Iterator::take", "Iterator::peekable", "Iterator::fuse") and call_args(it):
+            it = call_args(it)[0]
+        elif via_enum and is_call(it, "Iterator::enumerate") and call_args(it):
             it = call_args(it)[0]
         elif is_call(it, "Iterator::filter") and len(call_args(it)) == 2:
             clo = strip_refs(call_args(it)[1])
